@@ -12,6 +12,7 @@ was printed.
 """
 import fcntl
 import hashlib
+import urllib.parse
 import json
 import os
 import re
@@ -1128,7 +1129,115 @@ def check_C17(run, replay=None):
         trusted=ROUTER_TRUSTED + ["http.CanonicalHeaderKey modelled for ASCII (Model/Serve.v canon_key), tied by these cases"])
 
 
-CHECKS = {"C12": check_C12, "C15": check_C15, "C19": check_C19, "C13": check_C13, "C03": check_C03, "C04": check_C04, "C05": check_C05, "C06": check_C06, "C07": check_C07, "C08": check_C08, "C11": check_C11, "C16": check_C16, "C17": check_C17}
+# ---- C09: client/server agreement -----------------------------------------
+
+def c09_impl(im, mo=""):
+    kv = parse_kv(im)
+    if "impl" not in kv:
+        return "MISSING"
+    if kv.get("call") != "ok":
+        return "CALLFAIL(%s)|%s" % (kv.get("call"), kv["impl"])
+    v = kv.get("valid", "unavailable")
+    if v != "ok":
+        return "WIRE-REJECTED-BY-VALIDATOR(%s)|%s" % (v, kv["impl"])
+    w = kv.get("wire", ",,").split(",")
+    path = w[1] if len(w) > 1 else ""
+    if path and path != "-":
+        # URL.Path of the request line (what the router and Parse() see)
+        raw = bytes.fromhex(path).split(b"?", 1)[0]
+        path = urllib.parse.unquote_to_bytes(raw).hex()
+    return c09_canon(kv["impl"]) + "|" + path
+
+
+def c09_canon(d):
+    # a reader body is sent as Body(hex) and dumped as Raw(hex): compare the bytes
+    d = re.sub(r"(Body|Raw)\(([0-9a-f]*|-)\)\}$", lambda m: "Bytes(%s)}" % m.group(2), d)
+    return canon_dump(d).replace(" ", "\x01")
+
+
+def check_C09(run, replay=None):
+    proof_ok = run.proof_side()
+    cases, impl, model, meta = run.run_vh(["-cases", replay] if replay else None)
+    heads = fam_context(cases)
+    olines = [c for c in cases if c.startswith("O ")]
+
+    def ctx(i):
+        return heads(i) + olines
+    nbad = fam_report_bad_packages(run, meta)
+    # S lines are not this property's comparison (C03/C16 own them)
+    cs, ims, mos = [], [], []
+    keep = []
+    for i, c in enumerate(cases):
+        if c.startswith("K "):
+            keep.append(i)
+    # a null for a nullable parameter: expressible in the Go request type, outside the wire format and the model (D24)
+    nullpat = r"P\((I\(0\)|S\(-\)|F\(0(\.0)?\)|B\(0\)|T\([^)]*\))\)"
+    rest = []
+    null_hits = []
+    for i in keep:
+        if not model[i].startswith("model=Unexpressible(null-parameter)"):
+            rest.append(i)
+            continue
+        c = cases[i]
+        f = c.split(" ")
+        sent = f[3]
+        if len(f) >= 6:
+            inner = sent[1:-1]
+            sent = "{" + (inner + "," if inner else "") + f[5] + "}"
+        sent = c09_canon(sent)
+        iv = c09_canon(parse_kv(impl[i]).get("impl", ""))
+        rx = "^" + re.escape(sent).replace("Null", "(Null|" + nullpat + ")") + "$"
+        known = any(k["signature"] == "nullable_parameter_null" for k in run.known)
+        if iv == sent:
+            continue  # (the defect is gone: nothing to report; the entry in KNOWN_FINDINGS.txt is then stale)
+        if known and re.match(rx, iv) and "call=ok" in impl[i]:
+            null_hits.append(c[:160])
+        else:
+            run.violation({"property": run.prop, "case": c, "context": ctx(i), "expected_spec": sent, "observed_impl": impl[i],
+                           "model": model[i], "broken": "the handler's parsed parameters differ from what was sent"}, c)
+    keep = rest
+    kc = [cases[i] for i in keep]
+    ki = [impl[i] for i in keep]
+    km = []
+    for i in keep:
+        mkv = parse_kv(model[i])
+        if "model" in mkv:
+            km.append("model=%s|%s spec=%s|%s" % (c09_canon(mkv["model"]), mkv.get("path", ""), c09_canon(mkv.get("spec", "")), mkv.get("path", "")))
+        else:
+            km.append(model[i])
+    compare(run, kc, ki, km, get_impl=c09_impl, context=lambda j: ctx(keep[j]),
+            nontrivial=lambda c, iv: True)
+    for c in null_hits:
+        run.known_hit("nullable_parameter_null", c)
+    run.coverage["null_parameter_cases"] = len(null_hits)
+    pick = [keep[k] for k in sorted({0, len(keep) // 3, len(keep) // 2, len(keep) - 1})] if keep else []
+    run.coverage.update({
+        "rule": "seeded operations (path variables 0-2, 1-5 query/header parameters; types string/int/int32/int64/number/float/double/boolean/"
+                "date-time/password, arrays in query, nullable, schema $refs, required/optional; 10 base-path forms incl. --base-path and "
+                "servers[0].url) generated WITH the client; for each operation a set of seeded request values (boundary integers, float "
+                "extremes, text with reserved characters '/ ? & = % + space # , unicode', empty text, empty/1/3-element arrays, absent "
+                "optionals) is sent by the GENERATED CLIENT through an http.RoundTripper into the GENERATED API of the same package; the "
+                "handler calls Parse() and dumps the params; observed: the dumped params equal the value sent, the call returns no error, "
+                "the request path equals the model's, and the wire request is valid per kin-openapi openapi3filter.ValidateRequest (an "
+                "independent reading of the document). The model side runs Client.client_request then Params.parse_request (extracted).",
+        "programs": meta.get("packages_ok", 0), "packages_not_built": nbad,
+        "input_distribution": {k: v for k, v in meta.items() if k != "packages_bad"},
+        "samples": [{"case": cases[i][:300], "impl": impl[i][:400], "model_and_spec": model[i][:400]} for i in pick],
+        "trusted_base": TRUSTED_COMMON + ROUTER_TRUSTED + [
+            "modelled, not verified: the emitted client's request construction (Model/Client.v client_request = template Client.<Op> + "
+            "<Op>Request): strconv.FormatInt/FormatBool are modelled and proved inverse to the modelled ParseInt/ParseBool (Proofs/IntFormat.v); "
+            "strconv.FormatFloat and time.Format(RFC3339) are section oracles with the stated hypotheses float_rt / time_rt "
+            "(parse (format x) = x), instantiated by the harness from the real functions; url.PathEscape / url.QueryEscape / header "
+            "canonicalisation are abstracted as the transport (the wire form is judged by the independent validator and by the impl run, "
+            "not by the theorem)",
+            "kin-openapi openapi3filter as an independent validator of the wire request (support for the tie, not part of the theorem)"],
+    })
+    if not proof_ok:
+        run.violation(dict(getattr(run, "coq_failure", {}), input=None), None, note="no-failing-input-found")
+    return run.finish()
+
+
+CHECKS = {"C09": check_C09, "C12": check_C12, "C15": check_C15, "C19": check_C19, "C13": check_C13, "C03": check_C03, "C04": check_C04, "C05": check_C05, "C06": check_C06, "C07": check_C07, "C08": check_C08, "C11": check_C11, "C16": check_C16, "C17": check_C17}
 
 
 def setup():
